@@ -17,5 +17,6 @@ PROP = dict(
     assumptions=["reference interpreter reflects the documented format rules", "inputs contain no line of 64 KiB or more"],
     units=[
         R("rapid", "A", "./c02", "TestC02Rapid", (1500, 12), (40000, 16)),
+        F("fuzz", "./c02", "FuzzC02", 120),
     ],
 )
